@@ -27,6 +27,10 @@ def ladders():
     out = [('shipped8', SHIPPED), ('shipped8-noblank', SHIPPED[1:])]
     for k in (5, 6):
         out.append(('shipped-top%d' % k, SHIPPED[-k:]))
+    # the ladders of the shipped example experiment (examples/experiment.xlsx, examples/analyze_mef.py)
+    out.append(('example-a', [0, 792, 2079, 6588, 16471, 47497, 137049, 271647]))
+    out.append(('example-b', [0, 771, 2106, 6262, 15183, 45292, 136258, 291042]))
+    out.append(('example-b-noblank', [771, 2106, 6262, 15183, 45292, 136258, 291042]))
     out.append(('syn10', SYN10))
     out.append(('syn10-noblank', SYN10[1:]))
     out.append(('syn-top6', SYN10[-6:]))
@@ -145,8 +149,10 @@ def run_case(c):
         warnings.simplefilter('ignore')
         if c['kind'] == 'lattice':
             m, b = c['m'], c['b']
-            for auto in AUTOS:
-                for lname, mef in ladders():
+            for lname, mef in ladders():
+                # the largest autofluorescence the ladder admits (five populations still above three times it), where it matters most
+                edge = min(5000, int(mef[-5] / 3.0 * 0.999))
+                for auto in AUTOS + ([edge] if edge not in AUTOS else []):
                     if auto == 0 and mef[0] == 0:
                         continue            # a blank bead (MEF 0) has RFI 0 without autofluorescence; the law does not define log(0)
                     bright = [v for v in mef if v > 3 * auto]
@@ -157,7 +163,7 @@ def run_case(c):
                         continue
                     what = 'fit(slope %r, intercept %r, autofluorescence %r, ladder %s)' % (m, b, auto, lname)
                     # manufacturer ladders are whole numbers: given as floats, as an integer array or as a list of ints (same fit)
-                    form = ('float', 'int-array', 'int-list')[(AUTOS.index(auto) + len(lname)) % 3]
+                    form = ('float', 'int-array', 'int-list')[((AUTOS.index(auto) if auto in AUTOS else 1) + len(lname)) % 3]
                     mef_arg = mefs if form == 'float' else (np.array(mef, dtype=np.int64) if form == 'int-array' else [int(v) for v in mef])
                     what += ' [MEF values as %s]' % form
                     rfi_before, mef_before = rfi.tobytes(), repr(mef_arg)
@@ -182,7 +188,7 @@ def run_case(c):
                             continue
                     _PREV[:] = [(fit, np.asarray(fit[0](xs_h), dtype=float).tolist() + np.asarray(fit[1](xs_h), dtype=float).tolist(), [float(x) for x in fit[2]], what)]
                     if len(bright) >= 5:
-                        lo = min(r for r, v in zip(rfi, mef) if v > 0) if any(v > 0 for v in mef) else rfi.min()
+                        lo = rfi.min()            # the span of the beads includes the blank population (it fluoresces as much as the autofluorescence)
                         grid = np.exp(np.linspace(np.log(float(lo)), np.log(float(rfi.max())), 50))
                         got = np.asarray(fit[0](grid), dtype=float)
                         true = np.exp(b) * grid ** m
@@ -194,6 +200,23 @@ def run_case(c):
                                 what, float(grid[i]), float(got[i]), float(true[i]), 100 * dev[i], np.asarray(fit[2]).tolist()), one)
                             continue
                         res.ok('lattice:recovered', auto > 0 or len(mef) < 8)
+                        # the same bead values held in single precision (statistics of a float32 sample): the same law is recovered
+                        for dt32 in ((np.float32, np.float32), (np.float32, np.float64)):
+                            what32 = 'fit(slope %r, intercept %r, autofluorescence %r, ladder %s) [fluorescence as %s, MEF as %s]' % (m, b, auto, lname, dt32[0].__name__, dt32[1].__name__)
+                            try:
+                                fit32 = fitf(rfi.astype(dt32[0]), mefs.astype(dt32[1]))
+                                got32 = np.asarray(fit32[0](grid), dtype=float)
+                            except Exception as e:
+                                res.violation('lattice:float32:raises:%s' % type(e).__name__, '%s raised %s: %s' % (what32, type(e).__name__, e), one)
+                                break
+                            dev32 = np.abs(got32 / true - 1)
+                            res.counters['max_recovery_error_float32_ppm'] = max(res.counters['max_recovery_error_float32_ppm'], int(np.nanmax(dev32) * 1e6))
+                            if not np.all(dev32 <= 0.05):
+                                i = int(np.argmax(np.where(np.isnan(dev32), np.inf, dev32)))
+                                res.violation('lattice:recovery:float32', '%s: std_crv(%r) = %r, the generating law gives %r (%.1f%% off; fitted parameters %s)' % (
+                                    what32, float(grid[i]), float(got32[i]), float(true[i]), 100 * dev32[i], np.asarray(fit32[2]).tolist()), one)
+                                break
+                            res.ok('lattice:recovered:float32', True)
                     else:
                         res.ok('lattice:structural-only', True)
             res.sample({'m': m, 'b': b, 'autofluorescence': AUTOS, 'ladders': [l[0] for l in ladders()]})
